@@ -214,8 +214,9 @@ func (c *c09) run(tape *kernel.Tape) {
 		})
 	}
 	// genuine tokens at the wrong place (opaque access token as exchange subject, refresh as access ...)
-	for name, tok := range map[string]string{"access": s.tokens.AccessToken, "refresh": s.tokens.RefreshToken, "id": s.tokens.IDToken, "code": s.code} {
-		name, tok := name, tok
+	genuine := map[string]string{"access": s.tokens.AccessToken, "refresh": s.tokens.RefreshToken, "id": s.tokens.IDToken, "code": s.code}
+	for _, name := range kernel.SortedKeys(genuine) {
+		name, tok := name, genuine[name]
 		for _, tt := range []oidc.TokenType{oidc.AccessTokenType, oidc.RefreshTokenType, oidc.IDTokenType, oidc.JWTTokenType, "urn:x"} {
 			tt := tt
 			add("genuine-"+name+"-as="+string(tt), func() *world.Resp {
@@ -358,6 +359,78 @@ func (c *c09) run(tape *kernel.Tape) {
 		}
 		path := vf.path
 		add(fmt.Sprintf("mutate=%d %s %s", mut, k, path), func() *world.Resp { return w.PostForm(path, f, webBasic) })
+	}
+
+	// ---- 5. genuine artefacts that have aged: time passes, then every sink sees them again ----
+	// (an expired token is not a malformed one, but it takes the verifiers down other branches: claims may be absent
+	// where an error is tolerated)
+	aged := map[string]string{}
+	for _, cl := range []struct {
+		id  string
+		jwt bool
+	}{{"native", true}, {"pub", false}} {
+		c0 := w.Store.Clients[cl.id]
+		old := c0.TokenType
+		c0.TokenType = op.AccessTokenTypeBearer
+		if cl.jwt {
+			c0.TokenType = op.AccessTokenTypeJWT
+		}
+		if s2, err := codeFlow(w, b, flowOpts{client: cl.id, scopes: []string{oidc.ScopeOpenID, oidc.ScopeEmail, oidc.ScopeOfflineAccess}}); err == nil {
+			kind := map[bool]string{true: "jwt", false: "opaque"}[cl.jwt]
+			aged["access-"+kind+"-of-"+cl.id] = s2.tokens.AccessToken
+			aged["id-of-"+cl.id] = s2.tokens.IDToken
+			if s2.tokens.RefreshToken != "" {
+				aged["refresh-of-"+cl.id] = s2.tokens.RefreshToken
+			}
+		}
+		if s3, err := authorizeToCode(w, b, flowOpts{client: cl.id}); err == nil {
+			aged["code-of-"+cl.id] = s3.code
+		}
+		c0.TokenType = old
+	}
+	for round, d := range []time.Duration{w.Store.AccessLifetime + time.Minute, 7 * time.Hour} {
+		d := d
+		add(fmt.Sprintf("aged=advance-clock-%d", round), func() *world.Resp {
+			w.Advance(d)
+			c.o.Probe("clock-advanced-for-aged-tokens")
+			return nil
+		})
+		for _, name := range kernel.SortedKeys(aged) {
+			name, tok := name, aged[name]
+			owner := name[strings.LastIndex(name, "-")+1:]
+			creds := world.Creds{Mode: "id-only", ID: owner}
+			n := fmt.Sprintf("aged=%s/%d", name, round)
+			add(n+"@userinfo", func() *world.Resp { return bearerGet(w, "/userinfo", tok) })
+			add(n+"@introspect", func() *world.Resp { return w.PostForm("/oauth/introspect", url.Values{"token": {tok}}, webBasic) })
+			for _, hint := range []string{"", "access_token", "refresh_token"} {
+				hint := hint
+				add(n+"@revoke-hint-"+hint, func() *world.Resp {
+					f := url.Values{"token": {tok}}
+					if hint != "" {
+						f.Set("token_type_hint", hint)
+					}
+					return w.PostForm("/revoke", f, creds)
+				})
+			}
+			add(n+"@end_session", func() *world.Resp { return rawGet(w, "/end_session?id_token_hint="+url.QueryEscape(tok)) })
+			add(n+"@authorize-hint", func() *world.Resp {
+				return rawGet(w, "/authorize?"+url.Values{"client_id": {"web"}, "redirect_uri": {"https://web.sim/callback"}, "response_type": {"code"}, "scope": {"openid"}, "id_token_hint": {tok}}.Encode())
+			})
+			for _, tt := range []oidc.TokenType{oidc.AccessTokenType, oidc.RefreshTokenType, oidc.IDTokenType} {
+				tt := tt
+				add(n+"@exchange-as-"+string(tt)[strings.LastIndex(string(tt), ":")+1:], func() *world.Resp {
+					return w.PostForm("/oauth/token", url.Values{"grant_type": {string(oidc.GrantTypeTokenExchange)}, "subject_token": {tok}, "subject_token_type": {string(tt)},
+						"actor_token": {tok}, "actor_token_type": {string(tt)}}, webBasic)
+				})
+			}
+			add(n+"@refresh", func() *world.Resp {
+				return w.PostForm("/oauth/token", url.Values{"grant_type": {"refresh_token"}, "refresh_token": {tok}}, creds)
+			})
+			add(n+"@code", func() *world.Resp {
+				return w.PostForm("/oauth/token", url.Values{"grant_type": {"authorization_code"}, "code": {tok}, "redirect_uri": {w.Store.Clients[owner].Redirects[0]},
+					"code_verifier": {"verifier-0123456789abcdefghijklmnopqrstuvwxyz-ABCDEFGHIJ-" + owner}}, creds)
+			})
+		}
 	}
 
 	for i, cs := range cases {
